@@ -44,13 +44,13 @@ META = {
     ],
     "bound": {
         "quick": (
-            "<=3 classes (+ the fixed 5-class W-join): 17 roots x 5 kinds; 2-level = 17 roots x {bare base, every argument tuple "
+            "<=3 classes (+ the fixed 5-class W-join): 17 roots x 6 kinds; 2-level = 17 roots x {bare base, every argument tuple "
             "over {T,U,int,str,List[T]} (bound/constrained positions: {B,int,bool}/{C,int,str})} x Generic variants {implicit, "
             "explicit, explicit reversed} x own fields {none, new z: v | List[v], re-annotation of the first inherited field with "
             "int | v | List[v]}; 3-level chains = 6 roots x (arguments over {T,U,int} + bare, same Generic variants, own {none, "
             "new, re-annotation int}) x (the same with implicit Generic); V-shapes 4x2 roots (distinct field names) and 2x2 "
             "(same field name), arguments over {T,U,int} + bare; variadic: 6 roots x 15 argument lists x Generic variants x own "
-            "variants, 2 levels, dataclass; kinds dataclass/attrs/pydantic (NamedTuple/TypedDict single level); leaves of arity 2 "
+            "variants, 2 levels, dataclass; kinds dataclass/attrs/attrs with hand-written root __init__ around __attrs_init__/pydantic (NamedTuple/TypedDict single level); leaves of arity 2 "
             "with 3 of the 16 argument pairs + bare, other leaves with every pool argument + bare"
         ),
         "thorough": (
@@ -65,8 +65,10 @@ META = {
     },
 }
 
-KINDS_ALL = ("dataclass", "attrs", "pydantic", "namedtuple", "typeddict")
-KINDS_MULTI = ("dataclass", "attrs", "pydantic")
+# attrs_init: attrs classes whose roots write their own typed __init__ around __attrs_init__ (the introspection then reads the
+# constructor's signature; a child with a generated __init__ inherits the attribute __attrs_init__ without owning it)
+KINDS_ALL = ("dataclass", "attrs", "attrs_init", "pydantic", "namedtuple", "typeddict")
+KINDS_MULTI = ("dataclass", "attrs", "attrs_init", "pydantic")
 
 
 # =============================================================================================== spec construction
@@ -536,12 +538,15 @@ def render_source(spec, kind):
             bases.append("Generic[" + ", ".join(render_param(p) for p in generic) + "]")
         if kind == "dataclass":
             lines.append("@dataclass")
-        elif kind == "attrs":
+        elif kind in ("attrs", "attrs_init"):
             lines.append(attrs_deco)
         lines.append(f'class {c["name"]}' + (f'({", ".join(bases)})' if bases else "") + ":")
         if c["fields"]:
             rend = render604 if spec.get("pep604") else rg.render
             lines.extend(f"    {n}: {rend(rg.freeze(t))}" for n, t in c["fields"])
+            if kind == "attrs_init" and not c["bases"]:
+                lines.append("    def __init__(self, " + ", ".join(f"{n}: {rend(rg.freeze(t))}" for n, t in c["fields"]) + "):")
+                lines.append("        self.__attrs_init__(" + ", ".join(n for n, _ in c["fields"]) + ")")
         else:
             lines.append("    pass")
     return "\n".join(lines) + "\n"
@@ -619,7 +624,7 @@ def real_params(cls, kind):
 def real_fields(cls, kind):
     if kind == "dataclass":
         return sorted(cls.__dataclass_fields__)
-    if kind == "attrs":
+    if kind in ("attrs", "attrs_init"):
         return sorted(a.name for a in cls.__attrs_attrs__)
     if kind == "pydantic":
         return sorted(cls.model_fields)
@@ -692,7 +697,7 @@ class Evaluator:
         try:
             classes = compile_spec(spec, kind)
         except Exception as e:  # noqa: BLE001
-            if kind in ("dataclass", "attrs"):
+            if kind in ("dataclass", "attrs", "attrs_init"):
                 raise RuntimeError(f"reference legality model incomplete: {describe(spec, kind, None)}: {e!r}") from e
             report.skip(f"{kind} itself refuses to build the class ({exc_name(e)})")
             return
